@@ -11,7 +11,7 @@ CLAIMED = {
          "Trusts determinism of torch.Generator and SeedSequence; sampled histories.",
          TECH + "; history model (first answer per interval) with bit-equality"),
 }
-CLAIMED["C06"] = ("4 C06", "Seeded simulation of two replicas of one Brownian object: (A) same arguments and op stream under independent cache-fault plans, (B) dyadic mode under different histories then a common probe set, (C) different entropy; all answers compared bit-for-bit.",
+CLAIMED["C06"] = ("4 C06", "Seeded simulation of two replicas of one Brownian object: (A) same arguments and op stream under independent cache-fault plans, (B) dyadic mode under different histories then a common probe set, (C) different entropy, (D) fresh-process replica versus a replica built after a same-entropy decoy object, (T) two independent objects driven from two real threads under a seeded baton-passing scheduler (deterministic interleaving at line granularity) versus sequential replicas; all answers compared bit-for-bit.",
          "Trusts determinism of torch.Generator and SeedSequence; entropy=None constructions are out of scope; sampled histories.",
          TECH + "; replica agreement (bit-equality) between independently faulted copies")
 CLAIMED["C07"] = ("4 C07", "Seeded simulation of long and adversarial query histories (random, solver-shaped sweeps forward/backward with ulp-long clipped last steps, real sdeint on default/Tree/Path Brownian motion) under a deterministic profile-hook monitor: no exception, Python call depth <= 150 per call, cache entries <= cache_size, call events per call within a budget proportional to the designed tree size (bounded liveness).",
